@@ -4,9 +4,10 @@ C05 — Scalar multiplication is the Z/r-module action; all elements have order 
 Proved for every limb list (any length, limbs < 2^64 as the type `u64` guarantees): both ladders compute
 `(Σ limbsᵢ·2^{64i}) • P`; for scalars given as field elements, `k • P`; multi-scalar products are the sum of the
 products.  The generator's order is exactly r in the quotient by ⟨T2⟩ (kernel evaluation of the ladder + primality
-of r).  `order_dvd` ("r • P is the identity for every group element") is proved here as `order_dvd_partial`
-under the explicit hypothesis that the curve has 4r points (see DESIGN.md §5.7); the full statement is kept below.
+of r).  `order_dvd` ("r • P is the identity for every group element") is proved in full, without point counting:
+|E| ∈ {4r, 8r} from elementary bounds, no point of order 8, hence 4r kills E and r kills 𝔾 modulo T2 (DESIGN.md §5.7).
 -/
+import Decaf.Lemmas.Order
 import Decaf.Props.C04
 
 namespace C05
@@ -149,9 +150,49 @@ theorem generator_order (k : ℕ) : Point.Coset 0 (k • C04.genPoint) ↔ r ∣
   rw [← hord]
   exact addOrderOf_dvd_iff_nsmul_eq_zero.symm
 
-/-- FULL STATEMENT (C05, last clause): `∀ P ∈ 𝔾, Coset 0 (r • P)`.
-Proved below under the hypothesis that E has 4r points; see DESIGN.md §5.7 for the route that removes it. -/
-theorem order_dvd_partial [Fintype E] (hcard : Fintype.card E = 4 * r) (P : E) : (4 * r) • P = 0 := by
-  rw [← hcard]; exact card_nsmul_eq_zero
+/-! ### every element has order dividing r (DESIGN.md §5.7, no point counting)
+
+E(Fq) has at most 2q points, a point of order 4 and (by the two kernel facts above) a point of order r, hence
+|E| ∈ {4r, 8r}; it has no point of order 8 because 1 + d is not a square; so 4r kills E, and r maps the even
+subgroup 𝔾 — the points group elements are made of (C06) — into the identity coset {O, T2}. -/
+
+theorem card_E : Fintype.card E = 4 * r ∨ Fintype.card E = 8 * r := card_E_cases r_smul_gen gen_ne_identity
+
+theorem exponent_E (P : E) : (4 * r) • P = 0 := four_r_nsmul r_smul_gen gen_ne_identity P
+
+/-- **r times any group element is the identity element** -/
+theorem order_dvd {P : E} (he : Point.IsEven P) : Point.Coset 0 (r • P) := r_nsmul_even r_smul_gen gen_ne_identity he
+
+/-- the same through the implementation's ladders: multiplying any representative of an even point by the limbs of r
+gives a representative of a point of the identity coset (both backends) -/
+theorem order_dvd_ladders {c : Ext} {P : E} (h : ERepr c P) (he : Point.IsEven P) :
+    (∃ pt, ERepr (c.scalarMulMin rLimbs) pt ∧ Point.Coset 0 pt) ∧ (∃ pt, ERepr (c.scalarMulRef rLimbs) pt ∧ Point.Coset 0 pt) := by
+  have hr : r < 2 ^ (64 * 4) := by rw [_root_.C17.r_val]; norm_num
+  have h1 := scalarMulMin_correct h rLimbs (toLimbs_lt r 4)
+  have h2 := scalarMulRef_correct h rLimbs (toLimbs_lt r 4)
+  rw [show rLimbs = toLimbs 64 r 4 from rfl, ofLimbs_toLimbs r 4 hr] at h1 h2
+  exact ⟨⟨_, h1, order_dvd he⟩, ⟨_, h2, order_dvd he⟩⟩
+
+/-- … and the implementation's equality test says so: `r * c == identity` for every representative of every group
+element, with either ladder -/
+theorem order_dvd_eq {c : Ext} {P : E} (h : ERepr c P) (he : Point.IsEven P) :
+    Ext.eq Ext.identity (c.scalarMulMin rLimbs) = true ∧ Ext.eq Ext.identity (c.scalarMulRef rLimbs) = true := by
+  obtain ⟨⟨p1, h1, c1⟩, ⟨p2, h2, c2⟩⟩ := order_dvd_ladders h he
+  exact ⟨(eq_iff_coset identity_repr h1).mpr c1, (eq_iff_coset identity_repr h2).mpr c2⟩
+
+/-- k • P depends only on k mod r, up to the identity coset, for every group element P -/
+theorem smul_mod_r {P : E} (he : Point.IsEven P) (k : ℕ) : Point.Coset ((k % r) • P) (k • P) := by
+  have hk : k • P = (k % r) • P + (k / r) • (r • P) := by
+    rw [← mul_nsmul', ← add_nsmul, Nat.mul_comm, Nat.mod_add_div]
+  rw [hk]
+  rcases order_dvd he with h0 | h0
+  · left; rw [h0, nsmul_zero, add_zero]
+  · rw [zero_add] at h0
+    rw [h0]
+    rcases Nat.even_or_odd' (k / r) with ⟨m, hm | hm⟩
+    · left
+      rw [hm, mul_nsmul, two_nsmul, Point.T2_add_T2, nsmul_zero, add_zero]
+    · right
+      rw [hm, add_nsmul, mul_nsmul, two_nsmul, Point.T2_add_T2, nsmul_zero, zero_add, one_nsmul]
 
 end C05
